@@ -7,11 +7,11 @@ from tools import pull, vlib
 
 
 class C11(vlib.Spec):
-    model_vo = ["theories/Pull/Corr.vo"]
+    model_vo = ["theories/Pull/Corr.vo", "theories/Pull/CorrX.vo"]
     props_vo = "theories/Props/C11.vo"
     theorems = ['C11_map', 'C11_inspect', 'C11_filter', 'C11_filter_map', 'C11_flat_map', 'C11_flatten', 'C11_take_while', 'C11_skip_while', 'C11_take', 'C11_skip', 'C11_enumerate', 'C11_fuse', 'C11_chain', 'C11_zip', 'C11_zip_longest', 'C11_cross_singleton', 'C11_run_deterministic', 'C11_run_fuel_iff', 'C11_source_truthful', 'C11_compose', 'C11_beh_replays', 'C11_compose_fused', 'C11_checker_sound', 'C11_checker_complete']
     crate, group, binary = "h_pull", "light", "h_pull"
-    imports = "From HV Require Import Pull.Corr."
+    imports = "From HV Require Import Pull.Corr Pull.CorrX."
     trusted_base = ["coqc 8.16.1 kernel (vm_compute used for case evaluation only)",
                     "hand-written Gallina model coq/theories/Pull/Model.v of dfir_pipes/src/pull/*.rs",
                     "correspondence harness harness/h_pull (scripted Pull source) + tools/pull.py"]
@@ -30,16 +30,24 @@ class C11(vlib.Spec):
         return out
 
     def gen(self, rng, tier, n):
-        return pull.gen_c11(rng, tier, n, self.corpus())
+        cases = pull.gen_c11(rng, tier, n, self.corpus())
+        # the rest of dfir_pipes::pull (stream adaptors, either, consuming futures)
+        if tier == "thorough":
+            cases += pull.exhaustive_xcases()
+        nx = n // 3
+        cases += [pull.rand_xcase(rng, pull.XCOMBS[i % len(pull.XCOMBS)]) for i in range(nx)]
+        return cases
 
     def n_cases(self, tier):
         return 960 if tier == "quick" else 4000
 
     def to_coq(self, case, res):
+        if case.get("k") == "c11x":
+            return pull.c11x_term(case, res)
         return pull.c11_term(case, res)
 
     def shrink(self, case):
-        return pull.shrink_c11(case)
+        return pull.shrink_c11(case) if case.get("k") == "c11" else pull.shrink_x(case)
 
     def nontrivial(self, case, res):
         tr = res.get("trace", []) if isinstance(res, dict) else []
@@ -48,10 +56,16 @@ class C11(vlib.Spec):
         return has_ready and sched
 
     def finding_key(self, case, res):
-        return None
+        return pull.finding_key_c11x(case, res)
 
     def distribution(self, cases, results):
-        return pull.dist_c11(cases, results)
+        a = [(c, r) for c, r in zip(cases, results) if c.get("k") == "c11"]
+        d = pull.dist_c11([c for c, _ in a], [r for _, r in a])
+        d["adaptors_and_futures"] = {}
+        for c in cases:
+            if c.get("k") == "c11x":
+                d["adaptors_and_futures"][c["comb"]] = d["adaptors_and_futures"].get(c["comb"], 0) + 1
+        return d
 
 
 def main(ctx):
